@@ -582,9 +582,9 @@ def check_series_case(n, kind, pattern, op):
 
 M3_QUICK = [('fff', 3), ('fif', 3), ('OfM', 3), ('ffU', 3), ('bOO', 3), ('MMf', 2), ('OOO', 2)]      # (kinds, max rows)
 M4_QUICK = ['ffff', 'ffOO', 'ifbf', 'fOMU', 'MMif', 'OiUf']                                              # rows 1..2
-M4_THOROUGH_2ROWS = M4_QUICK + ['fOMf', 'OOOO', 'MfMf', 'fMOb', 'OOff']
-M4_THOROUGH_3ROWS = ['ffff', 'ifbf', 'fOMU', 'MMif', 'OiUf', 'fifU', 'iObM', 'fiiU', 'OffU', 'fOiM']    # 3x4
-M3_THOROUGH_3ROWS_ALL_NULLABLE = ['fff', 'ffO', 'fOf', 'Off', 'OOO', 'MMM', 'fMf', 'OfM', 'MfO', 'ffM', 'MOf', 'OOf']   # 512 patterns each
+M4_THOROUGH_2ROWS = M4_QUICK + ['fOMf', 'MfMf', 'fMOb']
+M4_THOROUGH_3ROWS = ['ffff', 'ifbf', 'fOMU', 'MMif', 'OiUf', 'fifU', 'iObM', 'fiiU', 'OffU']    # 3x4
+M3_THOROUGH_3ROWS_ALL_NULLABLE = ['fff', 'ffO', 'OOO', 'MMM', 'fMf', 'OfM']   # 512 patterns each
 CHUNK = 32
 
 
@@ -649,8 +649,8 @@ def run(repo, task):
                       'holds >= 1 missing cell',
                  bound=('quick: all kind tuples over {float64, object(None/NaN/NaT), datetime64[D], int64, bool, <U3} for 1-2 columns x 1-3 rows, 7 tuples of 3 columns x 1-3 rows, '
                         '6 tuples of 4 columns x 1-2 rows (i.e. up to 3x3 and 2x4); Series length <= 5' if tier == 'quick' else
-                        'thorough: all kind tuples for 1-3 columns x 1-3 rows (3x3 with three nullable columns: 12 of the 27 tuples), 4 columns x 1-2 rows for every tuple over {f,O,i,U} with <= 2 nullable columns plus 11 selected, '
-                        '3x4 for 10 selected tuples (ffff: all 4096 patterns); Series length <= 7') + '; exhaustive over missing patterns, layouts and limits')
+                        'thorough: all kind tuples for 1-3 columns x 1-3 rows (3x3 with three nullable columns: 6 of the 27 tuples), 4 columns x 1-2 rows for every tuple over {f,O,i,U} with <= 2 nullable columns plus 9 selected, '
+                        '3x4 for 9 selected tuples (ffff: all 4096 patterns); Series length <= 7') + '; exhaustive over missing patterns, layouts and limits')
     cases = itertools.chain(series_cases(tier), frame_cases(tier))
     for case in rep.shard(cases):
         try:
@@ -666,7 +666,8 @@ def run(repo, task):
                             rep.fail(r[0], r[1], dict(container='series', n=n, kind=kind, pattern=pattern, op=list(op)))
                 continue
             _, rows, kinds, lo, hi = case
-            ops = frame_ops(rows, len(kinds), tier)
+            # the 4096-pattern case uses the shorter (quick) list of fill elements / fillers to stay inside the time budget
+            ops = frame_ops(rows, len(kinds), 'quick' if n_patterns(rows, kinds) > 2048 else tier)
             proto, _, _ = make_columns(rows, kinds, 0)
             lays = list(layouts_dtype_safe(proto))
             for pattern in range(lo, hi):
